@@ -240,7 +240,7 @@ pub fn run(tier: Tier, replay: Option<&J>) -> i32 {
     // state: bzip2 -9, xz -6, zstd -19) on every 64th (quick) / 8th (thorough) payload
     for s in &defaults {
         let heavy = (s.codec_name == "bzip2" && s.level >= 9) || (s.codec_name == "xz" && s.level >= 6) || s.level >= 19;
-        let stride = if !heavy { 1 } else if tier == Tier::Quick { 64 } else { 8 };
+        let stride = if !heavy { 1 } else if tier == Tier::Quick { 256 } else { 8 };
         for (i, p) in small.iter().enumerate() {
             if i % stride != 0 {
                 continue;
@@ -257,7 +257,7 @@ pub fn run(tier: Tier, replay: Option<&J>) -> i32 {
             if !in_range && k >= 2 {
                 continue;
             }
-            if !in_range && tier == Tier::Quick && s.codec_name == "zstandard" && s.level % 8 != 7 {
+            if !in_range && tier == Tier::Quick && s.codec_name == "zstandard" && s.level % 32 != 31 {
                 // zstandard clamps to its maximum level, whose encoder state takes ~0.3 s to set up:
                 // the quick tier takes every 8th of the undefined levels, thorough all of them
                 continue;
@@ -269,7 +269,7 @@ pub fn run(tier: Tier, replay: Option<&J>) -> i32 {
     for s in &defaults {
         let heavy = (s.codec_name == "bzip2" && s.level >= 9) || (s.codec_name == "xz" && s.level >= 6) || s.level >= 19;
         for (l, p) in &sized {
-            if heavy && tier == Tier::Quick && p.len() > 70_000 {
+            if heavy && tier == Tier::Quick && (p.len() > 70_000 || (s.codec_name == "zstandard" && p.len() > 300 && !l.starts_with("noise"))) {
                 continue;
             }
             items.push((s.clone(), l.clone(), p.clone(), p.len() <= 70_000));
